@@ -271,9 +271,10 @@ impl Spec {
     }
 }
 
-/// CSS colour names the workloads use (SVG 1.1 / CSS3 keyword values)
-pub const NAMED_COLOURS: [(&str, [u8; 3]); 20] = [
-    ("red", [255, 0, 0]), ("navy", [0, 0, 128]), ("black", [0, 0, 0]), ("rebeccapurple", [102, 51, 153]), ("white", [255, 255, 255]), ("lime", [0, 255, 0]), ("green", [0, 128, 0]),
+/// Colour keywords of SVG 1.1 that the workloads use, with their values. (`rebeccapurple` is CSS4: the rasteriser
+/// linked here paints it black, so it is generated as a string without a pinned pixel value.)
+pub const NAMED_COLOURS: [(&str, [u8; 3]); 19] = [
+    ("red", [255, 0, 0]), ("navy", [0, 0, 128]), ("black", [0, 0, 0]), ("white", [255, 255, 255]), ("lime", [0, 255, 0]), ("green", [0, 128, 0]),
     ("blue", [0, 0, 255]), ("orange", [255, 165, 0]), ("teal", [0, 128, 128]), ("silver", [192, 192, 192]), ("gray", [128, 128, 128]), ("grey", [128, 128, 128]), ("maroon", [128, 0, 0]),
     ("fuchsia", [255, 0, 255]), ("aqua", [0, 255, 255]), ("yellow", [255, 255, 0]), ("olive", [128, 128, 0]), ("purple", [128, 0, 128]), ("cornflowerblue", [100, 149, 237]),
 ];
@@ -315,24 +316,29 @@ pub fn random_colour(rng: &mut Rng, allow_alpha: bool) -> Colour {
         2 => Colour::Rgba([rng.byte(), rng.byte(), rng.byte(), 255]),
         3 => Colour::Text(format!("#{:02x}{:02x}{:02x}", rng.byte(), rng.byte(), rng.byte())),
         4 => Colour::Text(format!("#{:02X}{:02X}{:02X}", rng.byte(), rng.byte(), rng.byte())),
-        _ => match rng.below(4) {
-            // the notations CSS/SVG offer besides six hex digits: three-digit shorthand (digits NOT all equal most of
-            // the time), four-digit shorthand with alpha, keyword names, functional notation
-            0 => {
-                let hexd = b"0123456789abcdefABCDEF";
-                let mut t = String::from("#");
-                for _ in 0..3 {
-                    t.push(*rng.pick(hexd) as char);
-                }
-                if rng.chance(1, 3) {
-                    t.push(if allow_alpha { *rng.pick(b"0137f") as char } else { *rng.pick(b"fF") as char });
-                }
-                Colour::Text(t)
-            }
-            1 => Colour::Text(format!("#{:02x}{:02x}{:02x}{:02x}", rng.byte(), rng.byte(), rng.byte(), if allow_alpha { *rng.pick(&[0u8, 1, 127, 254, 255]) } else { 255 })),
-            2 => Colour::Text(NAMED_COLOURS[rng.below(NAMED_COLOURS.len())].0.to_string()),
-            _ => Colour::Text(if rng.chance(1, 2) { "rgb(1,2,3)".to_string() } else { format!("rgb({}, {}, {})", rng.byte(), rng.byte(), rng.byte()) }),
-        },
+        _ => random_text_notation(rng, allow_alpha),
+    }
+}
+
+/// a colour written the way people write colours in CSS/SVG when it is not six hex digits
+pub fn random_text_notation(rng: &mut Rng, allow_alpha: bool) -> Colour {
+    match rng.below(4) {
+    // the notations CSS/SVG offer besides six hex digits: three-digit shorthand (digits NOT all equal most of
+    // the time), four-digit shorthand with alpha, keyword names, functional notation
+    0 => {
+        let hexd = b"0123456789abcdefABCDEF";
+        let mut t = String::from("#");
+        for _ in 0..3 {
+            t.push(*rng.pick(hexd) as char);
+        }
+        if rng.chance(1, 3) {
+            t.push(if allow_alpha { *rng.pick(b"0137f") as char } else { *rng.pick(b"fF") as char });
+        }
+        Colour::Text(t)
+    }
+    1 => Colour::Text(format!("#{:02x}{:02x}{:02x}{:02x}", rng.byte(), rng.byte(), rng.byte(), if allow_alpha { *rng.pick(&[0u8, 1, 127, 254, 255]) } else { 255 })),
+    2 => Colour::Text(if rng.chance(1, 10) { "rebeccapurple".to_string() } else { NAMED_COLOURS[rng.below(NAMED_COLOURS.len())].0.to_string() }),
+    _ => Colour::Text(if rng.chance(1, 2) { "rgb(1,2,3)".to_string() } else { format!("rgb({}, {}, {})", rng.byte(), rng.byte(), rng.byte()) }),
     }
 }
 
